@@ -415,6 +415,13 @@ pub fn run(sc: &Value) -> Value {
                     if let Some(p) = shade_probe(w, h, &cur, srcv, alpha, den) {
                         extra.insert("shade".into(), p);
                     }
+                    // image sources: also the pure source colour, so that the specification applies the
+                    // global alpha itself (a shader that drops the alpha is then visible to C03)
+                    if srcv["kind"].as_str() == Some("image") && alpha != 1.0 {
+                        if let Some(p) = shade_probe(w, h, &cur, srcv, 1.0, den) {
+                            extra.insert("shade1".into(), p);
+                        }
+                    }
                 }
             }
         }
